@@ -14,6 +14,7 @@ nested_config  computer alias x bank alias x scale alias x window alias x key st
                a JSON-round-tripped tree and from explicitly constructed objects
 """
 import collections
+import collections.abc
 import copy
 import inspect
 import itertools
@@ -501,7 +502,23 @@ def _inherit_replay(case):
 
 # ---------------------------------------------------------------- from_arg
 
-MAPPING_TYPES = ("dict", "OrderedDict", "MappingProxyType")
+MAPPING_TYPES = ("dict", "OrderedDict", "MappingProxyType", "ChainMap", "ReadOnlyMapping")
+
+
+class _ReadOnlyMapping(collections.abc.Mapping):
+    """a minimal read-only Mapping (no copy(), no pop()): all the documentation asks for"""
+
+    def __init__(self, d):
+        self._d = dict(d)
+
+    def __getitem__(self, k):
+        return self._d[k]
+
+    def __iter__(self):
+        return iter(self._d)
+
+    def __len__(self):
+        return len(self._d)
 
 
 def _as_mapping(kind, d):
@@ -509,10 +526,17 @@ def _as_mapping(kind, d):
         return dict(d)
     if kind == "OrderedDict":
         return collections.OrderedDict(d)
+    if kind == "ChainMap":
+        # every key lives in the LOWER layer of the chain (overrides on top are empty)
+        return collections.ChainMap({}, dict(d))
+    if kind == "ReadOnlyMapping":
+        return _ReadOnlyMapping(d)
     return types.MappingProxyType(dict(d))
 
 
 def _unchanged(m, snapshot):
+    if isinstance(m, collections.ChainMap):
+        return dict(m) == dict(snapshot) and m.maps[0] == {}
     return dict(m) == snapshot and list(m) == list(snapshot)
 
 
@@ -592,6 +616,30 @@ def _from_arg_harness(mt):
     r = computers.call(afs, root, _as_mapping(mt, {"alias": "nope", "name": "k"}))
     if not (r[0] == "exc" and r[1] == "ValueError"):
         bad("unknown_alias", "{'alias': 'nope', 'name': 'k'} gave %s" % _show(r), "map_unknown")
+    # the class registered last wins EVEN IF its constructor rejects the arguments: silently building
+    # an older class that shares the alias is not "last registered wins"
+    n += 2
+
+    class Old(root):
+        aliases = {"shared"}
+
+        def __init__(self, a=0, b=0):
+            self.a, self.b = a, b
+
+    class New(root):
+        aliases = {"shared"}
+
+        def __init__(self, a=0):
+            self.a = a
+
+    r = computers.call(afs, root, _as_mapping(mt, {"alias": "shared", "a": 1}))
+    if not (r[0] == "ok" and type(r[1]) is New and r[1].a == 1):
+        bad("ctor_mismatch", "{'alias': 'shared', 'a': 1} gave %s, expected the later class New" % _show(r),
+            "ctor_ok")
+    r = computers.call(afs, root, _as_mapping(mt, {"alias": "shared", "a": 1, "b": 2}))
+    if r[0] == "ok":
+        bad("ctor_mismatch", "{'alias': 'shared', 'a': 1, 'b': 2}: the class registered last (New) does not "
+            "accept b, yet %s was built instead of an error" % _show(r), "ctor_rejects")
     # an 'alias' that is present but falsy still takes precedence over 'name' (and is unknown)
     for scen, m in (("empty_alias_and_name", {"alias": "", "name": "k"}),
                     ("empty_alias_only", {"alias": ""}),
